@@ -447,6 +447,40 @@ func genLink(g *common.Gen, packets [][]byte) {
 				g.Stat("frame-deep-name")
 			}
 		}
+		// name components with large TLV-TYPE numbers (3-, 5- and 9-byte forms) and values around the
+		// 1-/3-byte length boundary: Interest and token-less Data (dispatched by component / prefix hashes)
+		if h%3 == 1 {
+			for _, typ := range []uint64{253, 65535, 65536, 1<<32 - 1, 1 << 32, 1 << 63, 1<<64 - 1} {
+				for _, vl := range []int{0, 1, 252, 253, 300} {
+					if r.Chance(1, 2) {
+						continue
+					}
+					name := c13.TLV(7, append(c13.TLV(8, []byte("a")), c13.TLV(typ, r.Bytes(vl))...))
+					data := c13.TLV(6, append(append(append([]byte{}, name...), c13.TLV(0x16, c13.TLV(0x1b, []byte{0}))...), c13.TLV(0x17, []byte{})...))
+					interest := c13.TLV(5, append(append([]byte{}, name...), c13.TLV(0x0a, []byte{1, 2, 3, 4})...))
+					g.Op("frame %s", common.Hex(interest))
+					g.Op("frame %s", common.Hex(lpFrame(nil, nil, nil, nil, data)))
+					if r.Chance(1, 3) {
+						g.Op("frame %s", common.Hex(data))
+					}
+					g.Stat("frame-big-component-type")
+				}
+			}
+		}
+		// many incomplete messages at once (each lost a fragment), then the peer restarts its sequence
+		// numbers: a fragment whose base sequence is LOWER than every stored one, then its completion
+		if h%6 == 2 && reasm {
+			pk := simpleData("m", r.Bytes(30))
+			n := common.Pick(r, []int{63, 64, 65, 70, 130})
+			for i := 0; i < n; i++ {
+				g.Op("frame %s", common.Hex(lpFrame(p(uint64(5000+10*i)), p(0), p(2), nil, pk[:10])))
+			}
+			low := uint64(r.Intn(3))
+			g.Op("frame %s", common.Hex(lpFrame(p(low), p(0), p(2), nil, pk[:10])))
+			g.Op("frame %s", common.Hex(lpFrame(p(low+1), p(1), p(2), nil, pk[10:])))
+			g.Op("frame %s", common.Hex(lpFrame(p(5000+1), p(1), p(2), nil, pk[10:])))
+			g.Stat("frame-many-incomplete")
+		}
 		nOps := r.Range(8, 30)
 		for k := 0; k < nOps; k++ {
 			pkt := common.Pick(r, inner)
